@@ -124,7 +124,7 @@ func readAbsErr(file []byte, ts spec.TypeSpec, typ reflect.Type, failAt *int, cb
 	if h < 0 {
 		h = -h
 	}
-	kind := []int{0, 0, 1, 2, 0, 4}[h%6]
+	kind := []int{0, 0, 1, 2, 0, 4, 101, 4195}[h%8]
 	err := avro.ReadFile(makeReader(kind, file), reflect.New(typ).Elem().Interface(), func(val unsafe.Pointer, rb *avro.ResourceBank) error {
 		got = append(got, spec.Abs(ts, false, reflect.NewAt(typ, val).Elem()))
 		if failAt != nil && len(got)-1 == *failAt {
